@@ -72,7 +72,7 @@ MIN = {
     'input:duplicate-node-with-offset-and-alias-qualifier': 3,
 }
 
-NCASES = {'quick': 1280, 'thorough': 20000}
+NCASES = {'quick': 1280, 'thorough': 12000}
 N_RANDOM_STYLES = 4
 ICP = 1
 
